@@ -102,6 +102,7 @@ def make_case(seed, facts, index=0, weights=None):
         opts["asset"] = None
     host = gen.gen_host(rng, swarm)
     host["extra_env"] = gen.gen_extra_env(rng, facts[country])
+    host["helper_programs"] = list(facts[country].get("helper_programs") or [])
     prestate = gen.gen_prestate(rng, opts)
     return {"property": PROP, "seed": seed, "index": index, "swarm": swarm, "world": world, "opts": opts, "host": host,
             "prestate": prestate, "readonly_inputs": rng.random() < 0.15}
